@@ -54,6 +54,53 @@ func lattice64(stake uint64) []uint64 {
 	return out
 }
 
+// refundHeightStream: the release height of a refund under every fork configuration (RefundManager.getRefundHeight
+// against `refundHeightOf`): all 16 flag/situation combinations, both miner types and a non-miner type, group counts 0..5
+// around the number of groups the remaining stake pays for, dismiss heights incl. duplicates, MaxUint64 ("never") and
+// MaxUint64-1 (wraps), heights around the reward period and around 50 (the Proposal011 subtraction wraps below it).
+func refundHeightStream(r *hx.Rng, run func(string) string, n int, st *genStats) {
+	nows := []uint64{0, 1, 49, 50, 51, 35999, 36000, 36001, 71999, 72000, 5000000, 1<<40 + 7}
+	for i := 0; i < n; i++ {
+		now := nows[r.Intn(len(nows))]
+		if r.Chance(1, 3) {
+			now = uint64(r.Intn(200000))
+		}
+		typ := r.Pick(0, 0, 0, 1, 1)
+		k := r.Intn(6)
+		ds := make([]string, 0)
+		for j := 0; j < k; j++ {
+			var d uint64
+			switch r.Intn(8) {
+			case 0:
+				d = ^uint64(0)
+			case 1:
+				d = ^uint64(0) - 1
+			case 2:
+				d = ^uint64(0) - 50
+			case 3:
+				d = now
+			case 4:
+				d = 0
+			default:
+				d = now + uint64(r.Intn(100000))
+			}
+			ds = append(ds, strconv.FormatUint(d, 10))
+		}
+		dcsv := "."
+		if k > 0 {
+			dcsv = strings.Join(ds, ",")
+		}
+		left := uint64(r.Pick(0, 1, 399, 400, 401, 799, 800, 1200, 1999, 2000)) + uint64(r.Intn(2))*uint64(r.Intn(3))*400
+		b := func() int { return r.Intn(2) }
+		p012 := 0
+		if r.Chance(1, 5) {
+			p012 = 1
+		}
+		run(fmt.Sprintf("rheight %d %d %d %d %d %d %d %s", p012, b(), r.Pick(0, 0, 1), b(), now, left, typ, dcsv))
+		st.inc(fmt.Sprintf("rheight-type%d-groups%d", typ, k))
+	}
+}
+
 // latticeFamily: deterministic scenarios that run before anything random — a miner of each type with a small and a
 // larger stake, then ONE operation with a lattice amount: refund (transaction), add-stake, UNSTAKE opcode.
 // `rich` gives the payer 2^120 wei so that huge add-stake amounts are payable (correspondence only).
@@ -249,6 +296,9 @@ func genEpisode(r *hx.Rng, ip *interp, run func(string) string, n int, st *genSt
 	for _, a := range addrs {
 		var v string
 		c := r.Intn(16)
+		if c < 5 && r.Chance(3, 4) {
+			c = 7 // keep fee-less / stake-less payers, but do not let `skip:nofee` dominate the stream
+		}
 		if search && c == 5 {
 			c = 6
 		}
@@ -271,6 +321,10 @@ func genEpisode(r *hx.Rng, ip *interp, run func(string) string, n int, st *genSt
 			v = "100000" + e18
 		}
 		run("bal " + a + " " + v)
+	}
+	if !search && r.Chance(1, 3) {
+		run("nodecode") // stand-in main-node contract: operator-node transactions (type 7) can succeed
+		st.inc("node-contract-deployed")
 	}
 	if r.Chance(1, 5) {
 		run("code " + addrs[r.Intn(len(addrs))])
@@ -295,7 +349,7 @@ func genEpisode(r *hx.Rng, ip *interp, run func(string) string, n int, st *genSt
 	first := ip.w.heights[0]
 	for i := 0; i < n; i++ {
 		switch k := r.Intn(100); {
-		case k < 30:
+		case k < 25:
 			typ := r.Pick(0, 0, 0, 1, 1, 1, 2, 255, 256)
 			t := typ
 			if t > 1 {
@@ -304,6 +358,10 @@ func genEpisode(r *hx.Rng, ip *interp, run func(string) string, n int, st *genSt
 			ac := e.acct()
 			if r.Chance(1, 3) {
 				ac = nil
+			}
+			if _, _, kac, _, ok := e.knownMiner(); ok && len(kac) > 0 && r.Chance(1, 6) {
+				ac = kac // an account that already controls a miner (rejected unless the registration is of this very block)
+				st.inc("apply-with-occupied-account")
 			}
 			pk, vrf := "01", "01"
 			if r.Chance(1, 2) {
@@ -324,7 +382,7 @@ func genEpisode(r *hx.Rng, ip *interp, run func(string) string, n int, st *genSt
 				st.inc("apply-existing-id-other-type")
 			}
 			run(fmt.Sprintf("apply %s %s %d %d %s %s %s", h(e.src()), h(id), typ, pickStake(r, t), h(ac), pk, vrf))
-		case k < 45:
+		case k < 37:
 			id, _, _, _, ok := e.knownMiner()
 			if !ok || r.Chance(1, 5) {
 				id = e.id()
@@ -353,7 +411,7 @@ func genEpisode(r *hx.Rng, ip *interp, run func(string) string, n int, st *genSt
 				}
 			}
 			run(fmt.Sprintf("add %s %s %d", h(e.src()), h(id), d))
-		case k < 70:
+		case k < 57:
 			id, stake, ac, typ, ok := e.knownMiner()
 			src := ac
 			if !ok || r.Chance(1, 6) {
@@ -403,7 +461,7 @@ func genEpisode(r *hx.Rng, ip *interp, run func(string) string, n int, st *genSt
 				st.inc("refund-amount-leading-zeros")
 			}
 			run(fmt.Sprintf("refund %s %s %s", h(src), h(id), am))
-		case k < 82:
+		case k < 67:
 			id, _, ac, _, ok := e.knownMiner()
 			src := ac
 			if !ok || r.Chance(1, 6) {
@@ -412,11 +470,15 @@ func genEpisode(r *hx.Rng, ip *interp, run func(string) string, n int, st *genSt
 			if !ok || r.Chance(1, 8) {
 				src = e.src()
 			}
-			run(fmt.Sprintf("chacc %s %s %s", h(src), h(id), h(e.acct())))
-		case k < 87:
+			na := e.acct()
+			if _, _, kac, _, ok2 := e.knownMiner(); ok2 && len(kac) > 0 && r.Chance(1, 5) {
+				na = kac // target account already controls a miner
+			}
+			run(fmt.Sprintf("chacc %s %s %s", h(src), h(id), h(na)))
+		case k < 71:
 			kinds := []string{"apply-json", "add-json", "chacc-json", "refund-json", "refund-amount"}
 			run(fmt.Sprintf("bad %s %s %d", kinds[r.Intn(len(kinds))], h(e.src()), r.Intn(16)))
-		case k < 89:
+		case k < 74:
 			// apply -> partial refund below the minimum (record kept, aborted) -> top up to just below / at / above it
 			id, stake, ac, typ, ok := e.knownMiner()
 			if !ok || len(ac) == 0 {
@@ -440,10 +502,33 @@ func genEpisode(r *hx.Rng, ip *interp, run func(string) string, n int, st *genSt
 					st.inc("abort-then-topup")
 				}
 			}
-		case k < 90:
+		case k < 76 && !search:
+			// house-keeping of the robin fork heights: remove every normal validator that is not whitelisted
+			wl := []string{}
+			for _, id := range e.ids {
+				if r.Bool() {
+					wl = append(wl, h(id))
+				}
+			}
+			ws := "."
+			if len(wl) > 0 {
+				ws = strings.Join(wl, ",")
+			}
+			run("purge " + ws)
+			st.inc("remove-unused-validators")
+		case k < 80 && !search:
+			// operator-node transaction (type 7): mostly by an account that controls a miner
+			_, _, ac, _, ok := e.knownMiner()
+			src := ac
+			if !ok || r.Chance(1, 4) {
+				src = e.src()
+			}
+			run("node " + h(src))
+			st.inc("operator-node")
+		case k < 83:
 			run("rewind") // discarded block execution (process-local history): only the key cache may remember it
 			st.inc("rewind")
-		case k < 92 && !search:
+		case k < 88 && !search:
 			// stake opcodes executed by a contract that is (or is not) some miner's account
 			_, stake, ac, typ, ok := e.knownMiner()
 			kc := ac
